@@ -58,6 +58,7 @@ class Registry:
         self.defs = {}         # spec helper name -> (params, expr string)
         self.rec_optional = set()
         self.by_real = {}      # (module, real class name) -> registry name
+        self.globs = {}        # 'module:NAME' -> type string
         self.class_ids = {}
 
     def fn(self, key, **kw):
@@ -85,6 +86,11 @@ class Registry:
 
     def define(self, name, params, expr):
         self.defs[name] = (list(params), expr)
+
+    def glob(self, key, type_str_):
+        """module-level table whose initialiser is not a literal (or that is deliberately kept abstract):
+        an opaque global object of the given type, never modified unless a frame obligation fails"""
+        self.globs[key] = type_str_
 
     def class_name(self, module, real):
         "registry name of the class `real` defined in `module` (None if it has no contract)"
@@ -132,6 +138,7 @@ fn = REG.fn
 cls = REG.cls
 rec = REG.rec
 define = REG.define
+glob = REG.glob
 
 
 # ---------------------------------------------------------------------------
@@ -161,7 +168,7 @@ def parse_type(s):
 
     def atom():
         t = take()
-        if t in ('int', 'bool', 'none', 'char', 'echar', 'str', 'float', 'any', 'pred', 'fn'):
+        if t in ('int', 'bool', 'none', 'char', 'echar', 'str', 'float', 'any', 'pred', 'fn', 'map'):
             return (t,)
         if t == 'None':
             return ('none',)
@@ -213,7 +220,7 @@ def parse_type(s):
 
 def type_str(t):
     k = t[0]
-    if k in ('int', 'bool', 'none', 'char', 'echar', 'str', 'float', 'any', 'pred', 'fn'):
+    if k in ('int', 'bool', 'none', 'char', 'echar', 'str', 'float', 'any', 'pred', 'fn', 'map'):
         return k
     if k == 'ref':
         return t[1]
